@@ -57,6 +57,10 @@ class ContractAPI(object):
     def for_p2tr(self, synthetic_key: bytes) -> bytes:
         return self.for_info(dict(type="p2tr", synthetic_key=synthetic_key))
 
+    def _is_nonminimal_push(self, opcode: int, data: bytes) -> bool:
+        minimal = self._script_tools.scriptStreamer.compile_push_data(data)
+        return bool(minimal[0] != opcode)
+
     def match(self, template_disassembly: str, script: bytes) -> dict[str, list[Any]] | None:
         template = self._script_tools.compile(template_disassembly)
         r: dict[str, list[Any]] = collections.defaultdict(list)
@@ -73,6 +77,10 @@ class ContractAPI(object):
                 template, pc2
             )
             l1 = 0 if data1 is None else len(data1)
+            if data2 in (b"PUBKEY", b"PUBKEYHASH", b"SEGWIT", b"SYNTHETIC_KEY"):
+                # for_info re-emits the shortest push, so only that form is the standard script
+                if data1 is None or self._is_nonminimal_push(opcode1, data1):
+                    break
             if data2 == b"PUBKEY":
                 if l1 < 33 or l1 > 120:
                     break
@@ -182,8 +190,12 @@ class ContractAPI(object):
             size = len(data) if data else 0
             if size < 33 or size > 120:
                 break
+            if self._is_nonminimal_push(opcode, data):
+                return None
             sec_keys.append(data)
         if pc >= len(script):
+            return None
+        if not OP_1 <= opcode <= OP_16:
             return None
         n = opcode + (1 - OP_1)
         if m > n or len(sec_keys) != n:
